@@ -10,6 +10,7 @@ merge, through the real parser and run().
 import copy
 import csv
 import itertools
+import json
 import os
 
 import numpy as np
@@ -319,8 +320,11 @@ def run_res_case(workdir, files, sel, use_filenames, merge, transpose=True):
 
 def _run_res_case(workdir, files, sel, use_filenames, merge, transpose):
     paths = [files[i][0] for i in sel]
-    out = os.path.join(workdir, "table_%s_%d_%d.csv" %
-                       ("".join(map(str, sel)), use_filenames, merge))
+    # the name of the table file is the user's business (the format is a
+    # package setting): a few names cycle through the selections
+    ext = (".csv", ".json", ".tex", "", ".txt")[(sum(sel) + len(sel)) % 5]
+    out = os.path.join(workdir, "table_%s_%d_%d%s" %
+                       ("".join(map(str, sel)), use_filenames, merge, ext))
     if os.path.exists(out):
         os.remove(out)
     argv = list(paths) + ["--save_table", out, "--no_warnings", "--silent"]
@@ -356,14 +360,29 @@ def _run_res_case(workdir, files, sel, use_filenames, merge, transpose):
     if not os.path.exists(out):
         return ["no table written"], "failed"
     with open(out) as f:
-        rows = list(csv.reader(f))
-    header, body = rows[0][1:], rows[1:]
-    if transpose:
-        table = {row[0]: dict(zip(header, row[1:])) for row in body}
-    else:
-        # non-default setting: statistics in rows, results in columns
-        table = {lab: {row[0]: row[1 + k] for row in body}
-                 for k, lab in enumerate(header)}
+        text = f.read()
+    table = None
+    if text.lstrip().startswith("{"):
+        # not the configured csv format (whatever the file is called): read
+        # it as a JSON object of columns anyway and compare the numbers
+        try:
+            cols = json.loads(text)
+            table = {}
+            for col, cells in cols.items():
+                for row, val in cells.items():
+                    table.setdefault(row, {})[col] = "" if val is None \
+                        else repr(val)
+        except ValueError:
+            table = None
+    if table is None:
+        rows = list(csv.reader(text.splitlines()))
+        header, body = rows[0][1:], rows[1:]
+        if transpose:
+            table = {row[0]: dict(zip(header, row[1:])) for row in body}
+        else:
+            # non-default setting: statistics in rows, results in columns
+            table = {lab: {row[0]: row[1 + k] for row in body}
+                     for k, lab in enumerate(header)}
     if sorted(table) != sorted(labels):
         msgs.append("table rows %s != expected labels %s" %
                     (sorted(table), sorted(labels)))
